@@ -5,7 +5,7 @@ from ..core import AnalysisError, norm, walk_no_nested
 
 META = {
     'design_ref': 'DESIGN.md §5 C20',
-    'technique': 'abstract interpretation (sa.heap) of every collection-returning method, reverse(), insert() histories, the reader, read() into a non-empty collection and the queries (present and absent names, on read-built and derived collections, with a frame condition on both indexes) on a generic finite relation with a reference relation as oracle (content, rdb = inverse(db), identity of set objects for ownership); in addition interpretation over a relation algebra (R, inverse, restriction) which decides the paired-assignment obligation for all relations where the method is in its vocabulary; ownership of every set object of the receiver; re-insert histories; pairwise distinct set objects in what a reader builds; identity of the index dictionaries of every derived collection, also under filters that keep everything',
+    'technique': 'abstract interpretation (sa.heap) of every collection-returning method, reverse(), insert() histories, the reader, read() into a non-empty collection and the queries (present and absent names, on read-built and derived collections, with a frame condition on both indexes) on a generic finite relation with a reference relation as oracle (content, rdb = inverse(db), identity of set objects for ownership); in addition interpretation over a relation algebra (R, inverse, restriction) which decides the paired-assignment obligation for all relations where the method is in its vocabulary; ownership of every set object of the receiver; re-insert histories; pairwise distinct set objects in what a reader builds; identity of the index dictionaries of every derived collection, also under filters that keep everything; inserts interpreted while a reverse() view shares the dictionaries (every live collection object keeps inverse indexes)',
     'level_text': 'Static decision for every derivation method: assuming the receiver\'s indexes are inverse, the returned collection\'s '
                   'indexes are syntactically inverse relation expressions; no returned collection shares a set that a later insert() on it '
                   'or on its parent mutates in place unless both dictionaries are shared; all stores type-check under '
@@ -301,9 +301,14 @@ def _r6(rep, src, label, full):
     for q, f in sorted(m.funcs.items()):
         if not q.startswith('DB.') or '.' in q[3:] or '#' in q or q[3:].startswith('_'):
             continue
+        def rooted_at_self(e):
+            # self.a(...)  /  self.a(...).b(...)  /  self.x.a(...)
+            while isinstance(e, (ast.Call, ast.Attribute)):
+                e = e.func if isinstance(e, ast.Call) else e.value
+            return isinstance(e, ast.Name) and e.id == 'self'
         if not any(isinstance(c, ast.Call) and norm(c.func) == 'DB' for c in ast.walk(f.node)) and \
                 not any(isinstance(r_, ast.Return) and isinstance(r_.value, ast.Call) and isinstance(r_.value.func, ast.Attribute)
-                        and norm(r_.value.func.value) == 'self' and ('DB.' + r_.value.func.attr) in m.funcs for r_ in ast.walk(f.node)):
+                        and rooted_at_self(r_.value.func.value) and ('DB.' + r_.value.func.attr) in m.funcs for r_ in ast.walk(f.node)):
             continue
         mname = q[3:]
         args = [arg_for(p_) for p_ in f.params()[1:]]
@@ -480,6 +485,38 @@ def _r6(rep, src, label, full):
                          'package index has %s): the package stays listed under tags it no longer carries' % (pkg, sorted(tags), pkg, sorted(GEN[pkg]),
                                                                                                      {t: sorted(rdb[t]) for t in stale[:3]}, {t: sorted(want_rdb.get(t, [])) for t in stale[:3]}),
                          where=ins.where)
+    # a reverse() view is alive while one of the two collections is changed: the view shares its dictionaries with the collection, so
+    # every live collection object must still have mutually inverse indexes afterwards (an insert that re-binds one of its own
+    # dictionaries instead of updating it leaves the other object with one old and one new index)
+    rev = src.func(M + ':DB.reverse')
+    for through_view, pkg, tags in ((False, 'pkg-one', {'role::b'}), (False, 'pkg-new', {'role::b', 'x::new'}), (False, 'pkg-three', set()),
+                                    (True, 'role::b', {'pkg-one'}), (True, 'x::new', {'pkg-two', 'pkg-three'})):
+        if not all(p_ in GEN for p_ in ('pkg-one', 'pkg-two', 'pkg-three')):
+            break
+        heap, it, me = _world(src)
+        what = 'insert(%s, %s) %s while a reverse() view of the collection is alive' % (pkg, sorted(tags), 'through the view' if through_view else 'into the collection')
+        try:
+            view = it.call(H.Closure(rev.node, {}, me, rev.cls), [])
+            it.call(H.Closure(ins.node, {}, view if through_view else me, ins.cls), [pkg, set(tags)])
+        except H.Raised as x:
+            rep.fail('C20.R3', ins.site, what, 'raises %s (line %d)' % (x.exc, x.lineno), where=ins.where)
+            continue
+        bad = None
+        for who, obj in (('the collection', me), ('the view', view)):
+            d_, _a = _plain(heap, heap.objs[obj.name]['db'])
+            r_, _b = _plain(heap, heap.objs[obj.name]['rdb'])
+            pd = {(p_, t_) for p_, ts_ in (d_ or {}).items() for t_ in ts_}
+            pr = {(p_, t_) for t_, ps_ in (r_ or {}).items() for p_ in ps_}
+            # (the character-set entry of a NEW tag is the known defect reported under C20.R2: pairs whose package is one character)
+            exploded = {c_ for x in pd | pr for c_, o_ in ((x[0], x[1]), (x[1], x[0])) if len(o_) == 1}       # names listed with single characters
+            diff = {x for x in pd ^ pr if not (x[0] in exploded or x[1] in exploded)}
+            if diff and bad is None:
+                bad = '%s lists %s in one index only (%s)' % (who, sorted(diff)[:3], 'package index' if sorted(diff)[0] in pd else 'tag index')
+        if bad:
+            rep.fail('C20.R3', ins.site, what, 'afterwards %s: the two collection objects share their dictionaries, and an index that is re-bound on one side is a different '
+                     'dictionary from the one the other side still reads' % bad, where=ins.where)
+        else:
+            rep.ok('C20.R3', ins.site, what, 'the collection and the view both have mutually inverse indexes')
     # the reader: both indexes from one pass, with and without a tag filter
     h = src.func(M + ':read_tag_database_both_ways')
     rep.saw_func(h)
